@@ -76,6 +76,8 @@ type world struct {
 	nextPeerQ int                   // next question id the reflecting peer uses
 	reflected map[int]int           // peer question id (reflected call) -> the Conn's question id it came from
 	holds     []*hold               // outgoing messages to be held inside transport.send (script actions hold-send / release-send)
+	auto      map[int]action        // method bodies that act on their own when they start (script action a-auto): kind, delay k ms, n=1: no Ack
+	slow      map[int]int           // delivery of the call with this tag to its capability takes this many milliseconds (a-slowdeliver)
 	cancels   map[int]context.CancelFunc // local calls made with a cancellable context (l-call kind "cancellable"), by tag
 	queueSize int                   // server.Policy.AnswerQueueSize of the capabilities of this script (script action "policy")
 	paramExp  map[int]int           // call tag -> export id the Conn assigned to the capability in the call's parameters
@@ -588,7 +590,12 @@ func (w *world) newCap(name string) *capnp.Client {
 			}
 		}
 		w.log(e)
-		call.Ack()
+		w.mu.Lock()
+		au, isAuto := w.auto[tag]
+		w.mu.Unlock()
+		if !isAuto || au.N == 0 {
+			call.Ack()
+		}
 		w.mu.Lock()
 		cmd := w.cmds[tag]
 		if cmd == nil {
@@ -603,6 +610,12 @@ func (w *world) newCap(name string) *capnp.Client {
 		w.mu.Unlock()
 		close(st)
 		var x string
+		if isAuto {
+			if au.K > 0 {
+				time.Sleep(time.Duration(au.K) * time.Millisecond)
+			}
+			cmd <- au.Kind
+		}
 		select {
 		case x = <-cmd:
 		case <-ctx.Done():
@@ -655,8 +668,30 @@ func (w *world) newCap(name string) *capnp.Client {
 		}
 	}
 	srv := server.New([]server.Method{{Method: meth, Impl: impl}}, nil, shutLogger{w, name}, &server.Policy{MaxConcurrentCalls: 16, AnswerQueueSize: w.queueSize})
-	return capnp.NewClient(srv)
+	return capnp.NewClient(slowHook{srv, w})
 }
+
+// slowHook delays the delivery of chosen calls (script action a-slowdeliver) to the capability behind it
+type slowHook struct {
+	inner *server.Server
+	w     *world
+}
+
+func (h slowHook) Send(ctx context.Context, s capnp.Send) (*capnp.Answer, capnp.ReleaseFunc) {
+	return h.inner.Send(ctx, s)
+}
+func (h slowHook) Recv(ctx context.Context, r capnp.Recv) capnp.PipelineCaller {
+	tag := int(r.Args.Uint32(0))
+	h.w.mu.Lock()
+	d := h.w.slow[tag]
+	h.w.mu.Unlock()
+	if d > 0 {
+		time.Sleep(time.Duration(d) * time.Millisecond)
+	}
+	return h.inner.Recv(ctx, r)
+}
+func (h slowHook) Brand() capnp.Brand { return h.inner.Brand() }
+func (h slowHook) Shutdown()          { h.inner.Shutdown() }
 
 func placeTag(tag int) func(capnp.Struct) error {
 	return func(s capnp.Struct) error { s.SetUint32(0, uint32(tag)); return nil }
@@ -732,7 +767,7 @@ func (w *world) waitStarted(tag int) bool {
 func runScript(id string, script []action) (trace []J, hang string) {
 	w := &world{toConn: make(chan *capnp.Message, 64), returns: map[int]J{}, qkind: map[int]string{},
 		cmds: map[int]chan string{}, started: map[int]chan struct{}{}, handles: map[string]*capnp.Client{}, tagCap: map[int]int{}, sentQ: map[int]bool{}, finQ: map[int]bool{}, lastEvent: time.Now(),
-		answers: map[int]*capnp.Answer{}, nextPeerQ: 20, reflected: map[int]int{}, recvTag: map[int]bool{}, onCancel: map[int]string{}, paramExp: map[int]int{}, queueSize: 16, cancels: map[int]context.CancelFunc{}}
+		answers: map[int]*capnp.Answer{}, nextPeerQ: 20, reflected: map[int]int{}, recvTag: map[int]bool{}, onCancel: map[int]string{}, paramExp: map[int]int{}, queueSize: 16, cancels: map[int]context.CancelFunc{}, auto: map[int]action{}, slow: map[int]int{}}
 	w.log(J{"ev": "reset", "h": id})
 	for _, a := range script {
 		if a.A == "fault" {
@@ -743,6 +778,7 @@ func runScript(id string, script []action) (trace []J, hang string) {
 		}
 		if a.A == "policy" {
 			w.queueSize = a.K
+			w.log(J{"ev": "policy", "n": a.K})
 		}
 	}
 	conn := rpc.NewConn(&transport{w}, &rpc.Options{BootstrapClient: w.newCap("B"), AbortTimeout: 50 * time.Millisecond, ErrorReporter: reporter{w}})
@@ -1228,6 +1264,17 @@ func (w *world) step(a action, closed *bool) {
 			time.Sleep(500 * time.Microsecond)
 		}
 		w.log(J{"ev": "released"})
+	case "a-auto":
+		w.mu.Lock()
+		w.auto[a.Tag] = a
+		if w.cmds[a.Tag] == nil {
+			w.cmds[a.Tag] = make(chan string, 2)
+		}
+		w.mu.Unlock()
+	case "a-slowdeliver":
+		w.mu.Lock()
+		w.slow[a.Tag] = a.K
+		w.mu.Unlock()
 	case "policy":
 		// applied before the Conn was created
 	case "a-oncancel":
